@@ -11,7 +11,8 @@ package main
 // the schedule, so a chosen interleaving of main loop, model goroutines and writers is forced; after each released
 // event the gate stays shut for a few ms (0.6 s around channel receives and pass-backs, which are followed by a
 // half-second sleep) so that the released goroutine reaches its next hook or blocks.  "load" and "purge" events
-// are not scheduled.  A hook that waits longer than $OWSIM_SCHEDULE_TIMEOUT_S (default 20) ends the process with
+// are not scheduled, nor are the events of the hand-over to a `-writer` child process (psendbegin, psendend, pclose,
+// pwaitend in the simulation process; cframe, cwritten, cexit in the child, which appends to the same file).  A hook that waits longer than $OWSIM_SCHEDULE_TIMEOUT_S (default 20) ends the process with
 // exit status 97: the schedule was not realisable.
 
 import (
@@ -31,6 +32,7 @@ var (
 	verifSeq  int
 	verifRng  *rand.Rand
 	verifOnce sync.Once
+	verifProc string // "" in the simulation process, "writer" in a -writer child
 
 	verifSched        []map[string]interface{}
 	verifSchedPos     int
@@ -39,8 +41,16 @@ var (
 )
 
 func verifInit() {
-	if fn := os.Getenv("OWSIM_TRACE"); fn != "" && !*writerMode {
-		verifFile, _ = os.Create(fn)
+	// The simulation process and its `-writer` child processes (option -outputs Model=file) log to the SAME file,
+	// each line with one write on a descriptor opened O_APPEND: the file order is then a total order of the events
+	// of all processes that respects causality (the child only appends; the parent truncates the file first).
+	if fn := os.Getenv("OWSIM_TRACE"); fn != "" {
+		if *writerMode {
+			verifFile, _ = os.OpenFile(fn, os.O_WRONLY|os.O_APPEND, 0644)
+			verifProc = "writer"
+		} else {
+			verifFile, _ = os.OpenFile(fn, os.O_WRONLY|os.O_APPEND|os.O_CREATE|os.O_TRUNC, 0644)
+		}
 	}
 	if fn := os.Getenv("OWSIM_SCHEDULE"); fn != "" && !*writerMode {
 		if b, err := os.ReadFile(fn); err == nil {
@@ -85,6 +95,15 @@ func verifSchedMatches(want map[string]interface{}, got map[string]interface{}) 
 	return true
 }
 
+// verifPipeEvent: events of the hand-over to a -writer child process (never scheduled).
+func verifPipeEvent(ev string) bool {
+	switch ev {
+	case "psendbegin", "psendend", "pclose", "pwaitend", "cframe", "cwritten", "cexit":
+		return true
+	}
+	return false
+}
+
 func verifEvent(ev string, kv ...interface{}) {
 	verifOnce.Do(verifInit)
 	if verifRng != nil {
@@ -104,7 +123,7 @@ func verifEvent(ev string, kv ...interface{}) {
 	for i := 0; i+1 < len(kv); i += 2 {
 		m[kv[i].(string)] = kv[i+1]
 	}
-	gated := verifSched != nil && ev != "load" && ev != "purge"
+	gated := verifSched != nil && ev != "load" && ev != "purge" && !verifPipeEvent(ev)
 	if verifFile == nil && !gated {
 		return
 	}
@@ -134,6 +153,9 @@ func verifEvent(ev string, kv ...interface{}) {
 	}
 	verifSeq++
 	m["seq"] = verifSeq
+	if verifProc != "" {
+		m["proc"] = verifProc
+	}
 	b, _ := json.Marshal(m)
 	verifFile.Write(append(b, '\n'))
 	verifMu.Unlock()
